@@ -15,13 +15,14 @@
  *                  statement's own per-number allowance, see pred_allowance) key predict|<kind>|<class>
  *   write-mutates  deep bitwise hash of the in-memory model before/after Write   key write-mutates|Write<kind>
  *   other-path     bytes of the other path's file before/after Write             key other-path|Write<kind>
- *   died / alloc / nonterm   the call crashed (sanitizer, abort), asked for > 64 MB, or looped: each step runs in
- *                  its own forked process, so the key carries the call and the class: died|Read<kind>|<class>
+ *   died / alloc / nonterm   the call crashed (sanitizer, abort), asked for > 64 MB, or looped: the library calls
+ *                  of a history run in a forked process, so the harness itself attributes the death to the
+ *                  call and the class: died|Read<kind>|<class>
  * <class> is computed from the history of the path written:
  *   first-write | writes>=2,no-shared-table | writes>=2,prev-same-model | writes>=2,prev-differs
  * ("shared table": an earlier write to the path was of a kind that uses a table name of this kind,
  *  i.e. the same kind, or PCA <-> CPCA which both use colaverage/colscaling).
- * No <signal.h>/<sys/wait.h> here (ssignal clash). */
+ * No <signal.h>/<sys/wait.h> here (ssignal clash); waitpid is declared by hand. */
 #include "hcommon.h"
 #include "pca.h"
 #include "pls.h"
@@ -37,7 +38,7 @@
 void __real_GetNProcessor(size_t *a, size_t *b);
 void __wrap_GetNProcessor(size_t *a, size_t *b) { if (a) *a = 1; if (b) *b = 1; }
 /* DVectNorm is called once per iteration of the NIPALS loops of PCA, PLS (LVCalc) and CPCA.  Library calls
- * are made in main() (fitting the alphabet) and in the forked step process (see run_step), never in the
+ * are made in main() (fitting the alphabet) and in the forked history process (see run_steps), never in the
  * engine's worker itself, so the ceilings end the process with a code instead of calling vx_tick. */
 #define EXIT_ALLOC 42
 #define EXIT_NONTERM 43
